@@ -1,5 +1,6 @@
 SPECIFICATION FairSpec
 CONSTANTS
+ Copies = 1  Pad = 0  Concat = FALSE
  EarlyTailError = FALSE
  MaxReinit = 0
  CountCalls = FALSE
